@@ -6,7 +6,7 @@ from .. import cfg, flow
 from ..core import AnalysisError, norm, walk_no_nested, calls_in
 
 META = {
-    'design_ref': 'DESIGN.md §3 C19',
+    'design_ref': 'DESIGN.md §5 C19',
     'technique': 'CFG must-pass-through / dominance rules on update_file (both hash comparisons before replace_file, '
                  'non-empty patch list), who-may-call rule for writers of the local file, replace protocol shape, '
                  'exit classification (fall-back or integrity error), definite-assignment and unguarded-unpack audit, '
